@@ -24,7 +24,9 @@ func init() {
 func runC19(c *Ctx) {
 	// two client groups (ip marker): every key belongs to one client, in one group, so a refresh
 	// has to renew the entry of the right group while requests of the other group keep arriving
-	marker := "127.0.0.0,127.0.0.255,L\n127.9.0.0,127.9.255.255,M\n"
+	// group L is a single host (a range that is not aligned to a /24: the address a refresh works
+	// with must be the client's own, not its ECS prefix)
+	marker := "127.0.0.1,127.0.0.1,L\n127.9.0.0,127.9.255.255,M\n"
 	b, err := NewBed(c, "bed", BedOpts{Upstreams: []string{"pipe", "tcp", "dotp", "dot"}, IpMarker: marker, ECS: true, MemSize: 64 << 20, Listeners: []string{"udp", "tcp", "gnet", "http", "fasthttp"}, UdpRcvBuf: 8 << 20})
 	if err != nil {
 		c.startFailure(err, "c19")
